@@ -195,6 +195,16 @@ func (m *modelState) applyPaid(w *world, spec *txSpec, success bool, used, price
 				if m.bal["score"].Sign() < 0 {
 					return "successful SCORE call leaves the SCORE with a negative balance"
 				}
+			case 'd':
+				// at execution time the payer held its balance minus the value (the fee is charged afterwards)
+				cur := new(big.Int).Add(m.bal[payer], fee)
+				if amt := new(big.Int).Sub(cur, big.NewInt(o.val)); amt.Sign() > 0 {
+					m.bal[payer].Sub(m.bal[payer], amt)
+					m.bal["score"].Add(m.bal["score"], amt)
+				}
+				if m.bal[payer].Sign() < 0 {
+					return fmt.Sprintf("transaction reported successful although the payer %s was left with less than the fee", payer)
+				}
 			}
 		}
 	}
